@@ -37,12 +37,64 @@ fn main() {
         Some("check") => driver(&args[2], parse_tier(args.get(3))),
         Some("worker") => worker(&args[2], parse_tier(args.get(3))),
         Some("replay") => replay::replay_file(&args[2]),
+        Some("miri") => miri_stage(&args[2]),
         _ => {
             eprintln!("usage: pqmc check|worker <ID> <quick|thorough> | pqmc replay <file>");
             2
         }
     };
     std::process::exit(code);
+}
+
+/// Runs inside `cargo +nightly miri run`: reduced-bound enumeration, single thread, no subprocess.
+fn miri_stage(prop: &str) -> i32 {
+    crash::install(true);
+    let out = props::run_property_miri(prop);
+    for v in &out.violations {
+        println!("MIRI-VIOLATION {}", serde_json::to_string(v).unwrap());
+    }
+    println!("MIRI-RESULT {}", json!({"states": out.states, "transitions": out.transitions, "layers": out.layers}));
+    if out.violations.is_empty() {
+        0
+    } else {
+        1
+    }
+}
+
+/// Driver side: run the Miri stage of a property (thorough tier). Returns (ok, summary, log path).
+fn run_miri_stage(prop: &str) -> (Option<bool>, Value, String) {
+    let log = format!("{}/replays/{prop}-miri-stage.log", out_dir());
+    let _ = std::fs::create_dir_all(format!("{}/replays", out_dir()));
+    let harness = std::env::var("PQMC_HARNESS_DIR").unwrap_or_else(|_| "/verif/harness".into());
+    let t0 = Instant::now();
+    let r = Command::new("cargo")
+        .args(["+nightly", "miri", "run", "--offline", "--quiet", "--", "miri", prop])
+        .current_dir(&harness)
+        .env("MIRIFLAGS", "-Zmiri-disable-stacked-borrows -Zmiri-ignore-leaks -Zmiri-disable-isolation")
+        .env("CARGO_NET_OFFLINE", "true")
+        .env("VERIF_THREADS", "1")
+        .output();
+    match r {
+        Err(e) => (None, json!({"skipped": format!("cannot run cargo miri: {e}")}), log),
+        Ok(o) => {
+            let so = String::from_utf8_lossy(&o.stdout).to_string();
+            let se = String::from_utf8_lossy(&o.stderr).to_string();
+            let _ = std::fs::write(&log, format!("{so}\n---- stderr ----\n{se}"));
+            let res: Value = so.lines().find_map(|l| l.strip_prefix("MIRI-RESULT ")).and_then(|j| serde_json::from_str(j).ok()).unwrap_or(json!({}));
+            let ub = se.contains("Undefined Behavior") || so.contains("MIRI-VIOLATION");
+            let finished = so.contains("MIRI-RESULT");
+            let summary = json!({"ran": true, "finished": finished, "undefined_behaviour_reported": ub, "result": res, "wall_s": t0.elapsed().as_secs_f64(),
+                "flags": "-Zmiri-disable-stacked-borrows -Zmiri-ignore-leaks -Zmiri-disable-isolation"});
+            if ub {
+                (Some(false), summary, log)
+            } else if finished && o.status.success() {
+                (Some(true), summary, log)
+            } else {
+                // toolchain problem, unsupported operation, ...: no verdict from this stage
+                (None, summary, log)
+            }
+        }
+    }
 }
 
 fn parse_tier(a: Option<&String>) -> Tier {
@@ -236,6 +288,21 @@ fn driver(prop: &str, tier: Tier) -> i32 {
         println!("  {}", c.detail);
         reported.push(json!({"replay": path, "signature": sig, "detail": c.detail}));
     }
+    // Miri stage (thorough tier of the memory-safety properties)
+    let mut miri_summary = Value::Null;
+    if tier == Tier::Thorough && props::has_miri_stage(prop) && violations == 0 && std::env::var_os("PQMC_NO_MIRI").is_none() {
+        let (ok, summary, log) = run_miri_stage(prop);
+        miri_summary = summary;
+        match ok {
+            Some(true) => {}
+            Some(false) => {
+                violations += 1;
+                println!("VIOLATION property={prop} replay={log}");
+                println!("  the reduced-bound enumeration under Miri reported undefined behaviour or an oracle violation; see the log");
+            }
+            None => eprintln!("miri stage of {prop} gave no verdict (see {log}); the native exploration stands on its own"),
+        }
+    }
     // evidence
     let wall = t0.elapsed().as_secs_f64();
     let r = result.unwrap_or_else(|| json!({}));
@@ -261,6 +328,9 @@ fn driver(prop: &str, tier: Tier) -> i32 {
     coverage.insert("layers".into(), r["layers"].clone());
     coverage.insert("explanation".into(), json!(props::explanation(prop)));
     coverage.insert("worker_finished".into(), json!(clean));
+    if !miri_summary.is_null() {
+        coverage.insert("miri_stage".into(), miri_summary);
+    }
     coverage.insert("violations_reported".into(), Value::Array(reported));
     coverage.insert("known_findings_seen".into(), json!(known_seen));
     if let Some(e) = r["extra"].as_object() {
